@@ -5,6 +5,7 @@
 import Rtp.Proofs.WireCanonical
 import Rtp.Proofs.WireViewPred
 import Rtp.Proofs.WireAgree
+import Rtp.Proofs.WireAppbits
 import Rtp.Pred.C03
 namespace Rtp.Props.C03
 open Rtp Rtp.Model Rtp.Spec.Wire Rtp.Proofs.Wire
@@ -372,5 +373,18 @@ theorem c03_twobyte_appbits_witness : ¬ c03_accepts_full := by
   simp only [canonP, canonH, hx, ↓reduceIte, hm] at this
   revert this
   decide
+
+/-- the region is exact here too: EVERY well-formed two-byte image with non-zero appbits is decoded to
+    one opaque element with id 0 (the block content with its alignment pads) … -/
+theorem c03_appbits_region_decode (w : Wire) (a : UInt8) (items : List Item)
+    (hext : w.ext = some (.twoByte a items)) (hw : w.WF = true) (ha : a ≠ 0) :
+    ∃ p, pktUnmarshal {} w.encode = .ok p ∧
+      p.header.exts = [{ id := 0, payload := body2 items ++ rep (padTo4 (body2 items).length) 0 }] :=
+  appbits_decode w a items hext hw ha
+
+/-- … so sentence (1) fails on all of them -/
+theorem c03_appbits_region_fails (w : Wire) (hw : w.WF = true) (ha : w.appbits = true) (qs : List UInt8) :
+    Pred.C03.acceptsOK w (Pred.C03.modelObs w.encode qs) = false :=
+  appbits_fails w hw ha qs
 
 end Rtp.Props.C03
